@@ -92,6 +92,9 @@ type Event struct {
 type Scenario struct {
 	N        int        `json:"n"`
 	MaxChunk int        `json:"max_chunk,omitempty"`
+	// MaxChunkSrv, if non-zero, is the server's max chunk size (-1: none);
+	// otherwise both ends use MaxChunk.
+	MaxChunkSrv int `json:"max_chunk_srv,omitempty"`
 	Client   TimeoutCfg `json:"client"`
 	Server   TimeoutCfg `json:"server"`
 	LatC2SMs int        `json:"lat_c2s_ms"`
@@ -200,10 +203,14 @@ func (e *Env) ArmFaults() {
 	e.S2C.Arm(until)
 }
 
-func (e *Env) opts(c TimeoutCfg) []gbn.Option {
+func (e *Env) opts(c TimeoutCfg, server bool) []gbn.Option {
 	o := []gbn.Option{gbn.WithTimeoutOptions(c.Options()...)}
-	if e.Sc.MaxChunk > 0 {
-		o = append(o, gbn.WithMaxSendSize(e.Sc.MaxChunk))
+	chunk := e.Sc.MaxChunk
+	if server && e.Sc.MaxChunkSrv != 0 {
+		chunk = e.Sc.MaxChunkSrv
+	}
+	if chunk > 0 {
+		o = append(o, gbn.WithMaxSendSize(chunk))
 	}
 	return o
 }
@@ -213,14 +220,14 @@ func (e *Env) StartHandshake() {
 	e.hsWG.Add(2)
 	go func() {
 		defer e.hsWG.Done()
-		c, err := gbn.NewServerConn(e.ctxS, e.S2C.Send, e.C2S.Recv, e.opts(e.Sc.Server)...)
+		c, err := gbn.NewServerConn(e.ctxS, e.S2C.Send, e.C2S.Recv, e.opts(e.Sc.Server, true)...)
 		e.Mu.Lock()
 		e.Server, e.ServerErr, e.ServerDoneAt = c, err, e.Trace.Now()
 		e.Mu.Unlock()
 	}()
 	go func() {
 		defer e.hsWG.Done()
-		c, err := gbn.NewClientConn(e.ctxC, uint8(e.Sc.N), e.C2S.Send, e.S2C.Recv, e.opts(e.Sc.Client)...)
+		c, err := gbn.NewClientConn(e.ctxC, uint8(e.Sc.N), e.C2S.Send, e.S2C.Recv, e.opts(e.Sc.Client, false)...)
 		e.Mu.Lock()
 		e.Client, e.ClientErr, e.ClientDoneAt = c, err, e.Trace.Now()
 		e.Mu.Unlock()
